@@ -44,7 +44,8 @@ RegMatches(r, logged) ==
 Matches(e) ==
   /\ "post" \in DOMAIN e => \A s \in 1..Len(e.post) : RegMatches(sk'[s], e.post[s])
   \* query() is a function of the registers: same registers, same answer
-  /\ e.ev = "query" => \A q \in qmemo : q[1] = sk[e.s] => q[2] = e.out
+  /\ e.ev = "query" => /\ \A q \in qmemo : q[1] = sk[e.s] => q[2] = e.out
+                       /\ e.out = e.fresh      \* and equals the answer of a fresh sketch with these registers
 
 TStep ==
   /\ l <= Len(Events)
